@@ -369,3 +369,102 @@ def cases_of(scenarios, outputs):
         for oi, (op, obs) in enumerate(zip(sc["ops"], out["ops"])):
             flat.append((si, oi, op, obs, op_case(sc["config"], op, obs)))
     return flat
+
+
+# --------------------------------------------------------------------------------------------
+# the standard flow of a ceremony-level property check
+
+def standard_check(run, prop, scenarios, meta, coq_oracles, py_oracle=None, coq_files=(), rule="", extra_targets=(),
+                   pair_oracle=None, assumptions=()):
+    """scenarios: harness cases; meta: one hashable signature per scenario (distinctness measure);
+    coq_oracles: names of `ccase -> bool` functions (besides `agree`) evaluated on the implementation's
+    observations; py_oracle(sc, out) -> list of failure strings (independent Python checks: signatures,
+    hashes, point arithmetic); pair_oracle(scenarios, outs) -> list of (payload) relational failures."""
+    common.run_translator("status")
+    bad = common.hygiene_gate()
+    if bad:
+        raise common.Tie("hygiene gate: " + "; ".join(bad))
+    common.coq_build(list(COQ_TARGETS) + list(extra_targets))
+    thms, assum = common.props_check(prop)
+    binary = common.harness_build("ceremony")
+    corpus = load_corpus(prop)
+    scenarios = corpus + scenarios
+    meta = [("corpus", i) for i in range(len(corpus))] + list(meta)
+    outs = run_scenarios(binary, scenarios)
+    flat = cases_of(scenarios, outs)
+    crashed = [(si, obs) for (si, oi, op, obs, t) in flat if t is None]
+    live = [(si, oi, op, obs, t) for (si, oi, op, obs, t) in flat if t is not None]
+    terms = [t for (_, _, _, _, t) in live]
+    funcs = ["agree"] + list(coq_oracles)
+    res = common.coq_eval(prop, PREAMBLE, terms, funcs, shard=200)
+    n_viol = 0
+    for si, obs in crashed[:3]:
+        run.violation({"kind": "ceremony crashed the process (abort / stack overflow / timeout)", "scenario": scenarios[si], "observed": obs}); n_viol += 1
+    for fn in coq_oracles:
+        for i in res[fn][:3]:
+            si, oi, op, obs, t = live[i]
+            run.violation({"kind": "property oracle %s false on the implementation's observation" % fn,
+                           "scenario": scenarios[si], "op_index": oi, "observed": obs}); n_viol += 1
+    py_fail = []
+    if py_oracle is not None:
+        for si, (sc, out) in enumerate(zip(scenarios, outs)):
+            if "ops" in out:
+                for msg in py_oracle(sc, out):
+                    py_fail.append((si, msg))
+        for si, msg in py_fail[:3]:
+            run.violation({"kind": "independent oracle: " + msg, "scenario": scenarios[si], "observed": outs[si]}); n_viol += 1
+    pair_fail = pair_oracle(scenarios, outs) if pair_oracle is not None else []
+    for payload in pair_fail[:3]:
+        run.violation(payload); n_viol += 1
+    if n_viol == 0:
+        for i in res["agree"][:1]:
+            si, oi, op, obs, t = live[i]
+            run.violation({"kind": "model and implementation disagree; every oracle true on all %d observations of this run" % len(terms),
+                           "broken": "correspondence ceremony/%s (Auth.CeremonyCheck.agree, replay of the call log)" % op["op"],
+                           "scenario": scenarios[si], "op_index": oi, "observed": obs,
+                           "model": common.coq_show(prop, PREAMBLE, "match (%s) with CMake c q log qs ht _ => inl (replay (make_credential c q) log qs 0) | CGet c q log qs ht _ => inr (inl (replay (get_assertion (ad_bytes (lookup_hash ht)) c q) log qs 0)) | CInfo c log _ => inr (inr (replay (get_info c) log (Build_queues [] [] [] []) 0)) end" % t)[-3000:]},
+                          found_input=False)
+    files = ["theories/Auth/Prog.v", "theories/Auth/Monitor.v", "theories/Auth/Effects.v", "theories/Props/%s.v" % prop] + list(coq_files)
+    n_lem = common.count_lemmas(files)
+    kinds = {}
+    for si, oi, op, obs, t in live:
+        r = obs["result"]
+        k = (op["op"], "ok" if "ok" in r else "cancelled" if r.get("cancelled") else "err%d" % r["err"])
+        kinds[k] = kinds.get(k, 0) + 1
+    run.cov.update({
+        "obligations": n_lem, "discharged": n_lem,
+        "checker_cmd": "make -C coq theories/Props/%s.vo (coqc 8.16.1, full .vo build) + hygiene gate + Print Assumptions" % prop,
+        "trusted_base": ["Coq 8.16.1 kernel, vm_compute", "translators/status.py",
+                         "correspondence: harness/src/bin/ceremony.rs + harness/src/instr.rs (instrumented CredentialStore / UserValidationMethod), driver/ceremony.py (term printer, Python P-256/ECDSA/SHA-256/HMAC oracles)",
+                         "each .await on a trait object = one effect call (async_trait desugaring); rand/p256/sha2/hmac crates are answers of internal events",
+                         "Print Assumptions: %d closed under the global context, axioms: %s" % (assum["closed"], assum["with_allowed_axioms"] or "none")],
+        "theorems": thms,
+        "evaluations": len(terms), "distinct_nontrivial": len(set(meta)),
+        "rule": rule + "; distinct = distinct scenario signatures (request shape, capabilities, user answers, store kind/content class)",
+        "samples": [json.dumps(scenarios[len(corpus)])[:600]] + [terms[len(terms) // 2][:400]],
+        "outcome_histogram": {"%s/%s" % k: v for k, v in sorted(kinds.items())},
+        "model_disagreements": len(res["agree"]), "oracle_failures": {fn: len(res[fn]) for fn in coq_oracles},
+        "python_oracle_failures": len(py_fail), "relational_oracle_failures": len(pair_fail), "crashes": len(crashed),
+        "scenarios": len(scenarios), "corpus": len(corpus),
+    })
+    run.assumptions += list(assumptions)
+    return scenarios, outs, live, res
+
+
+def load_corpus(prop):
+    import os
+    d = os.path.join(common.VERIF, "corpus", prop)
+    out = []
+    if os.path.isdir(d):
+        for f in sorted(os.listdir(d)):
+            if f.endswith(".json"):
+                c = json.load(open(os.path.join(d, f)))
+                out.append(c.get("scenario", c))
+    return out
+
+
+def replay(payload):
+    binary = common.harness_build("ceremony")
+    sc = payload.get("scenario")
+    print(json.dumps(common.harness_one(binary, sc))[:4000])
+    return 0
